@@ -48,6 +48,43 @@ struct KsD {
 enum Op {
     Learn { ks: u32, tb: u32, a: i64, b: i64, raw: Vec<(u128, i32)>, known: Vec<NodeD> },
     Maintain { kss: Vec<KsD>, removed: Vec<u128>, current: Vec<NodeD>, recreated: Vec<NodeD> },
+    /// ClusterState::perform_tablets_maintenance(tablets, old_known_nodes, new_known_nodes, keyspaces)
+    Refresh { kss: Vec<KsD>, old: Vec<NodeD>, new: Vec<NodeD> },
+}
+fn kss_s(kss: &[KsD]) -> String {
+    join(kss, ",", |k| {
+        format!(
+            "{}:{}:{}:{}",
+            hex_u(k.ks as u128),
+            k.tablet_based as u8,
+            join(&k.tables, "+", |t| hex_u(*t as u128)),
+            join(&k.views, "+", |t| hex_u(*t as u128))
+        )
+    })
+}
+fn p_kss(s: &str) -> Vec<KsD> {
+    p_list(s, ',')
+        .iter()
+        .map(|x| {
+            let g: Vec<&str> = x.split(':').collect();
+            KsD {
+                ks: p_u(g[0]) as u32,
+                tablet_based: g[1] == "1",
+                tables: p_list(g[2], '+').iter().map(|t| p_u(t) as u32).collect(),
+                views: p_list(g[3], '+').iter().map(|t| p_u(t) as u32).collect(),
+            }
+        })
+        .collect()
+}
+fn ks_descs(kss: &[KsD]) -> Vec<KeyspaceDesc> {
+    kss.iter()
+        .map(|k| KeyspaceDesc {
+            name: format!("ks{:x}", k.ks),
+            tablet_based: k.tablet_based,
+            tables: k.tables.iter().map(|t| format!("t{:x}", t)).collect(),
+            views: k.views.iter().map(|t| format!("t{:x}", t)).collect(),
+        })
+        .collect()
 }
 
 fn join<T>(xs: &[T], sep: &str, f: impl Fn(&T) -> String) -> String {
@@ -90,6 +127,7 @@ fn op_s(o: &Op) -> String {
             join(current, ",", node_s),
             join(recreated, ",", node_s)
         ),
+        Op::Refresh { kss, old, new } => format!("R/{}/{}/{}", kss_s(kss), join(old, ",", node_s), join(new, ",", node_s)),
     }
 }
 
@@ -145,6 +183,11 @@ fn p_op(s: &str) -> Op {
             removed: p_list(f[2], ',').iter().map(|x| p_u(x)).collect(),
             current: p_list(f[3], ',').iter().map(|x| p_node(x)).collect(),
             recreated: p_list(f[4], ',').iter().map(|x| p_node(x)).collect(),
+        },
+        "R" => Op::Refresh {
+            kss: p_kss(f[1]),
+            old: p_list(f[2], ',').iter().map(|x| p_node(x)).collect(),
+            new: p_list(f[3], ',').iter().map(|x| p_node(x)).collect(),
         },
         _ => panic!("bad op {}", s),
     }
@@ -339,6 +382,18 @@ fn apply(v: &mut VerifTablets, nodes: &mut Nodes, o: &Op) -> Option<String> {
             let current = nodes.map(current);
             let recreated = nodes.map(recreated);
             let r = catch(std::panic::AssertUnwindSafe(|| v.perform_maintenance(&kss, &removed, &current, &recreated)));
+            match r {
+                Err(_) => None,
+                Ok(()) => Some("m".into()),
+            }
+        }
+        Op::Refresh { kss, old, new } => {
+            let kss = ks_descs(kss);
+            let old = nodes.map(old);
+            let new = nodes.map(new);
+            let r = catch(std::panic::AssertUnwindSafe(|| {
+                scylla::cluster::verif_tablets_maintenance::perform_tablets_maintenance(v, &old, &new, &kss)
+            }));
             match r {
                 Err(_) => None,
                 Ok(()) => Some("m".into()),
@@ -576,12 +631,13 @@ fn gen_random_history(r: &mut Rng, kind: &'static str, len: usize, small: bool, 
             let mut current = new.clone();
             // a small share of calls with arguments the real caller would not produce (the functions
             // are total in them): inconsistent current / extra removed / empty current
+            let mut perturbed = true;
             match r.below(40) {
                 0 => current = old.clone(),
                 1 => removed.push(*r.pick(&hosts)),
                 2 => current.clear(),
                 3 => recreated.clear(),
-                _ => {}
+                _ => perturbed = false,
             }
             // schema changes
             if r.chance(1, 5) {
@@ -608,7 +664,12 @@ fn gen_random_history(r: &mut Rng, kind: &'static str, len: usize, small: bool, 
                 }
             }
             let kss: Vec<KsD> = if r.chance(1, 30) { vec![] } else if r.chance(1, 10) { vec![w.schema[0].clone()] } else { w.schema.clone() };
-            ops.push(Op::Maintain { kss, removed, current, recreated });
+            if perturbed || r.chance(1, 4) {
+                ops.push(Op::Maintain { kss, removed, current, recreated });
+            } else {
+                // the caller's own derivation (ClusterState::perform_tablets_maintenance)
+                ops.push(Op::Refresh { kss, old: old.clone(), new: new.clone() });
+            }
             w.known = new;
         } else {
             let (ks, tb) = if r.chance(5, 6) { (1, 1) } else { (*r.pick(&[1u32, 2]), r.range(1, 3) as u32) };
@@ -687,6 +748,16 @@ fn gen_scenarios(out: &mut Out) {
         vec![
             learn(0, 10, vec![(1, 0), (2, 1)], vec![x.clone(), y.clone()]),
             Op::Maintain { kss: schema_all(), removed: vec![], current: vec![x2b.clone(), y.clone()], recreated: vec![x2b.clone()] },
+        ],
+        // the first and the fourth scenario through the caller's own derivation of the arguments
+        vec![
+            learn(0, 10, vec![(1, 0), (3, 1)], vec![x.clone(), y.clone()]),
+            Op::Refresh { kss: schema_all(), old: vec![x.clone(), y.clone()], new: vec![x2.clone(), y.clone(), u.clone()] },
+        ],
+        vec![
+            learn(0, 10, vec![(1, 0), (2, 1)], vec![x.clone(), y.clone()]),
+            Op::Refresh { kss: schema_all(), old: vec![x.clone(), y.clone()], new: vec![x2b.clone(), y.clone()] },
+            Op::Refresh { kss: schema_all(), old: vec![x2b.clone(), y.clone()], new: vec![x2b.clone()] },
         ],
         // the repository's own "Case 9": inconsistent current (old object) with a recreated node
         vec![
